@@ -1418,10 +1418,75 @@ func init() {
 		"fmt.Printf": func(m *Machine, fr *frame, pos token.Pos, args []value) value {
 			return tuple{0, iface{}}
 		},
+		"fmt.Fprint":   func(m *Machine, fr *frame, pos token.Pos, args []value) value { return tuple{0, iface{}} },
+		"fmt.Fprintln": func(m *Machine, fr *frame, pos token.Pos, args []value) value { return tuple{0, iface{}} },
+		"fmt.Print":    func(m *Machine, fr *frame, pos token.Pos, args []value) value { return tuple{0, iface{}} },
+		"fmt.Println":  func(m *Machine, fr *frame, pos token.Pos, args []value) value { return tuple{0, iface{}} },
+		"fmt.Sprint":   func(m *Machine, fr *frame, pos token.Pos, args []value) value { return m.sprint(variadic(args[0]), false) },
+		"fmt.Sprintln": func(m *Machine, fr *frame, pos token.Pos, args []value) value { return m.sprint(variadic(args[0]), true) },
+		"sort.Slice":       fSortSlice,
+		"sort.SliceStable": fSortSlice,
 		"golang.org/x/exp/utf8string.NewString":             fUtf8NewString,
 		"(*golang.org/x/exp/utf8string.String).RuneCount":   fUtf8RuneCount,
 		"(*golang.org/x/exp/utf8string.String).At":          fUtf8At,
 	}
+}
+
+// sprint: fmt.Sprint adds a space between operands when neither is a string;
+// fmt.Sprintln always, plus a newline.
+func (m *Machine) sprint(ops []value, ln bool) value {
+	isStr := func(v value) bool {
+		i, ok := v.(iface)
+		if !ok || i.t == nil {
+			return false
+		}
+		b, ok := i.t.Underlying().(*types.Basic)
+		return ok && b.Info()&types.IsString != 0
+	}
+	var f strings.Builder
+	for i := range ops {
+		if i > 0 && (ln || (!isStr(ops[i-1]) && !isStr(ops[i]))) {
+			f.WriteByte(' ')
+		}
+		f.WriteString("%v")
+	}
+	if ln {
+		f.WriteByte('\n')
+	}
+	res, _, ok := m.formatArgs(f.String(), ops)
+	if !ok {
+		unsupported("fmt.Sprint with a symbolic operand not covered by the model")
+	}
+	return res
+}
+
+// fSortSlice: sort.Slice / sort.SliceStable as a stable in-place insertion
+// sort; less runs in the engine, so comparisons of symbolic elements fork.
+// (sort.Slice does not promise an order for equal elements; the native run
+// may order them differently.)
+func fSortSlice(m *Machine, fr *frame, pos token.Pos, args []value) value {
+	i, ok := args[0].(iface)
+	if !ok {
+		unsupported("sort.Slice of %T", args[0])
+	}
+	xs, ok := i.v.([]value)
+	if !ok {
+		if i.v == nil {
+			return nil
+		}
+		unsupported("sort.Slice of %T", i.v)
+	}
+	less := args[1]
+	for a := 1; a < len(xs); a++ {
+		for b := a; b > 0; b-- {
+			r := m.call(fr, pos, less, []value{b, b - 1})
+			if !m.truth(r) {
+				break
+			}
+			xs[b], xs[b-1] = xs[b-1], xs[b]
+		}
+	}
+	return nil
 }
 
 func opaquePtr(kind string, payload any) *value {
